@@ -108,6 +108,11 @@ def set_world_dim(dim: int) -> int:
 def episode_vec(spec: Any, text: str, by_id: Optional[Dict[str, Any]] = None):
     if spec == "zero":
         return np.zeros((_WORLD_DIM[0],), dtype=np.float32)
+    if spec == "nan":
+        # a damaged stored vector: one component is not a number
+        v = np.array(_EMB.encode([text])[0], dtype=np.float32, copy=True)
+        v[0] = np.float32("nan")
+        return v
     if isinstance(spec, str) and spec.startswith("text:"):
         return _EMB.encode([spec[5:]])[0]
     if isinstance(spec, str) and spec.startswith("near:"):
